@@ -2761,6 +2761,18 @@ struct Explorer {
       x.detail = "ninja reported 'stuck [this is a bug]'";
       out->push_back(x);
     }
+    // ninja has gone (exit(), not a kill) and a command it started is neither finished nor stopped: it was left behind --
+    // the Fatal() shape (F75, F83, F85), where neither Cleanup() nor any destructor runs
+    if (!r.crashed && !r.hang && !r.horizon && !op.tool && !op.dry_run)
+      for (auto& c : r.cmds)
+        if (!c.finished && !c.killed) {
+          Violation x; x.prop = "C06"; x.clause = "exited-with-commands-running";
+          x.detail = "ninja exited (status " + to_string(r.exit_code) + ") while '" + c.spec.id() + "', which it had started, was still running";
+          x.facts.set("stmt", c.spec.id());
+          x.facts.set("exit", r.exit_code);
+          out->push_back(x);
+          break;
+        }
     // "every token is returned by the time ninja exits on any path" (not when the process was killed: r.crashed)
     if (op.cfg.js_tokens >= 0 && r.js_total >= 0 && !r.crashed && !r.hang && !r.horizon && r.js_final != r.js_total) {
       Violation x; x.prop = "C06";
